@@ -257,6 +257,15 @@ func c09Corpus() []jCase {
 		// re-offer before the answer arrived: the new transceiver takes the data section's mid
 		{Peers: 1, Ops: []jOp{
 			{Op: "dc"}, {Op: "offer"}, {Op: "sld", Ty: "offer"}, {Op: "add", Kind: "audio", Dir: "sendrecv"}, {Op: "offer"}}},
+		// remote offer [40, 41(message)] pending; AddTransceiver; CreateOffer: fresh mid "41"
+		{Peers: 1, Ops: []jOp{
+			{Op: "srd", Ty: "offer", Desc: &jDesc{Secs: []jSec{sec("audio", "40", "sendrecv"), sec("message", "41", "sendonly")}, Group: jStr("BUNDLE 40 41")}},
+			{Op: "add", Kind: "video", Dir: "recvonly"}, {Op: "offer"}}},
+		// CreateOffer while the first remote offer is pending lists transceivers in creation order
+		{Peers: 1, Ops: []jOp{
+			{Op: "add", Kind: "video", Dir: "recvonly"},
+			{Op: "srd", Ty: "offer", Desc: &jDesc{Secs: []jSec{sec("audio", "7", "sendrecv")}, Group: jStr("BUNDLE 7")}},
+			{Op: "offer"}}},
 		// three rounds, both sides offering, additions on both sides
 		{Peers: 2, Ops: []jOp{
 			{P: 0, Op: "add", Kind: "audio", Dir: "sendrecv"}, {P: 0, Op: "add", Kind: "video", Dir: "sendrecv"}, {P: 0, Op: "dc"},
@@ -277,7 +286,7 @@ func init() {
 	Register(Spec[jCase]{
 		ID: "C09", Suite: "pair", CoqImports: imports,
 		CoqType: "list (list op)", CoqRun: jRunName("C09"),
-		Quick: 160, Thorough: 2000, Parallel: 8,
+		Quick: 110, Thorough: 2000, Parallel: 8,
 		Corpus: c09Corpus,
 		Gen: func(r *Rand, i int) jCase {
 			if i%3 == 0 {
@@ -290,7 +299,7 @@ func init() {
 	Register(Spec[jCase]{
 		ID: "C09", Suite: "synth", CoqImports: imports,
 		CoqType: "list (list op)", CoqRun: jRunName("C09"),
-		Quick: 220, Thorough: 3000, Parallel: 8,
+		Quick: 140, Thorough: 3000, Parallel: 8,
 		Gen: func(r *Rand, i int) jCase {
 			if i%3 == 0 {
 				return jGenSynth(r, 0)
@@ -302,7 +311,7 @@ func init() {
 	Register(Spec[jCase]{
 		ID: "C09", Suite: "hostile", CoqImports: imports,
 		CoqType: "list (list op)", CoqRun: jRunName("C09"),
-		Quick: 100, Thorough: 1200, Parallel: 8,
+		Quick: 70, Thorough: 1200, Parallel: 8,
 		Gen: func(r *Rand, i int) jCase { return jGenSynth(r, 30) },
 		Run: c09Run, Coq: jCoqOf, Shrink: jShrink,
 	})
